@@ -123,11 +123,11 @@ func c02Model(h *HistSys, hist []Op, w *world.World) (*Finding, string) {
 		return nil, ""
 	}
 	never := pol == "never" || h.Class.Kind == "dppool" || h.Class.Kind == "stspool" // a named pool means never
-	held := map[int]string{}      // identity classes: pod index -> ip
-	appHeld := map[string]bool{}  // deployment classes: ips the app/pool holds
-	holder := map[string]string{} // ip -> uid of the pod it was last bound to
-	dead := map[string]bool{}     // uid -> pod deleted or finished
-	known := map[string]bool{}    // uid -> the IPAM has been told (event delivered, or a resync ran after the death)
+	held := map[int]string{}                                                         // identity classes: pod index -> ip
+	appHeld := map[string]bool{}                                                     // deployment classes: ips the app/pool holds
+	holder := map[string]string{}                                                    // ip -> uid of the pod it was last bound to
+	dead := map[string]bool{}                                                        // uid -> pod deleted or finished
+	known := map[string]bool{}                                                       // uid -> the IPAM has been told (event delivered, or a resync ran after the death)
 	log := obsLog(w)
 	replicas := h.Replicas
 	alive := map[int]bool{} // identity classes: is the pod with this index currently alive
